@@ -158,6 +158,8 @@ def run(name, ids, tier='quick'):
         sh('git -C %s checkout -- .' % REPO)
         rc, out = sh('git -C %s status --porcelain --untracked-files=no' % REPO)
         assert out.strip() == '', out
+        # the checks regenerated lean/RSocketModel/Gen from the patched tree: regenerate it from the unchanged one
+        sh('%s harness/translate.py' % PY, cwd=VERIF, env={'VERIF_REPO': REPO})
     save_meta(dst, meta)
     return 0
 
